@@ -67,10 +67,9 @@ def step (t : List String) : String :=
     | some dir, some m, some n, some M, some N, some (qy :: qx :: s0 :: s1 :: data) =>
       match parseArr m n data with
       | some f =>
-        let e := if dir < 0 then eFwd else eInv
         let ay := alphaOf m qy
         let ax := alphaOf n qx
-        fmtArr M N (mdft2 e nrmF wiringAxis0 wiringAxis1 (m, n) (M, N) ay ax ay ax (s0, s1) (rd2 f))
+        fmtArr M N (mdft2G (-1) (dir < 0) eFwd nrmF wiringAxis0 wiringAxis1 (m, n) (M, N) ay ax ay ax (s0, s1) (rd2 f))
       | none => "bad-op"
     | _, _, _, _, _, _ => "bad-op"
   | "czt2" :: dir :: m :: n :: M :: N :: K' :: L :: rest =>
@@ -79,10 +78,10 @@ def step (t : List String) : String :=
       match parseArr m n data with
       | some f =>
         let out := if dir < 0
-          then czt2 eFwd nrmF wiringAxis0 wiringAxis1 (cztGlue m M K') (cztGlue n N L) (m, n) (M, N) (K', L)
-            (alphaOf m qy) (alphaOf n qx) (s0, s1) f
-          else iczt2 Cx.conj eFwd nrmF wiringAxis0 wiringAxis1 (cztGlue m M K') (cztGlue n N L) (m, n) (M, N) (K', L)
-            (alphaOf m qy) (alphaOf n qx) (s0, s1) f
+          then czt2G cztSignsRef cztStagesRef eFwd nrmF wiringAxis0 wiringAxis1 (cztGlue m M K') (cztGlue n N L)
+            (m, n) (M, N) (K', L) (alphaOf m qy) (alphaOf n qx) (s0, s1) f
+          else iczt2G Cx.conj cztSignsRef cztStagesRef eFwd nrmF wiringAxis0 wiringAxis1 (cztGlue m M K') (cztGlue n N L)
+            (m, n) (M, N) (K', L) (alphaOf m qy) (alphaOf n qx) (s0, s1) f
         fmtArr M N (rd2 out)
       | none => "bad-op"
     | _, _, _, _, _, _, _, _ => "bad-op"
@@ -91,8 +90,8 @@ def step (t : List String) : String :=
     | some dir, some m, some n, some M, some N, some data =>
       match parseArr m n data with
       | some f =>
-        let e := if dir < 0 then eFwd else eInv
-        fmtArr M N (rd2 (fftRoute2 e nrmF (m, n) (M, N) (padOffset m M, padOffset n N) f))
+        let fl := if dir < 0 then focusFlagsRef else unfocusFlagsRef
+        fmtArr M N (rd2 (fftRoute2G fl eFwd nrmF (m, n) (M, N) (padOffset m M, padOffset n N) f))
       | none => "bad-op"
     | _, _, _, _, _, _ => "bad-op"
   | ["cztglue", n, M, L] =>
@@ -104,7 +103,8 @@ def step (t : List String) : String :=
   | ["cztbasis", n, M, L, al, sh] =>
     match n.toNat?, M.toNat?, L.toNat?, parseFloatBits? al, parseFloatBits? sh with
     | some n, some M, some L, some α, some s =>
-      fmtVec L (cztH eFwd (cztGlue n M L) α) ++ " " ++ fmtVec n (cztB eFwd nrmF n α s) ++ " " ++ fmtVec M (cztA eFwd M α s)
+      fmtVec L (cztHS cztSignsRef eFwd (cztGlue n M L) α) ++ " " ++ fmtVec n (cztBS cztSignsRef eFwd nrmF n α s) ++ " " ++
+        fmtVec M (cztAS cztSignsRef eFwd M α s)
     | _, _, _, _, _ => "bad-op"
   | "cache" :: nf :: toks =>
     match nf.toNat? with
